@@ -68,7 +68,7 @@ def run(run, replay=None):
         traces.append(h.trace(len(traces), CHK))
         run.count(('model-tree', repr(t)), nontrivial=True)
     run.notes['trees_from_MC_Dom'] = len(mtrees)
-    can = _dcommon.dom_canaries(traces, rng)
+    can = run.tolerant(lambda: _dcommon.dom_canaries(traces, rng))
     v = run.judge('Trace_Dom', traces + can, cat.tables(), canary_ids=[c['id'] for c in can], describe=describe)
     run.notes['serialised_ok'] = sum(1 for t in traces if any(e['k'] == 'parse' for e in t['ev']))
     return run.finish(
